@@ -45,6 +45,11 @@ impl Parsable for FileLocation {
                 '.' => {
                     ext_delimiter = Some(raw_string.len());
                 }
+                '/' => {
+                    // An extension cannot contain a directory separator: in ../x the
+                    // dots belong to the directory part of the path.
+                    ext_delimiter = None;
+                }
                 _ => (),
             }
             raw_string.push(c);
@@ -66,20 +71,22 @@ impl FileLocation {
         working_directory: Option<&path::Path>,
         default_extension: &str,
     ) -> path::PathBuf {
-        let mut path: path::PathBuf = match self.area {
-            None => match working_directory {
-                None => Default::default(),
-                Some(working_directory) => working_directory.into(),
-            },
-            Some(_) => {
+        let mut path: path::PathBuf = match working_directory {
+            None => Default::default(),
+            Some(working_directory) => working_directory.into(),
+        };
+        match &self.area {
+            None => path.push(std::ffi::OsString::from(&self.path)),
+            Some(area) => {
                 // TODO: support file areas.
                 // Probably we just need to extend the vm::FileSystem trait to accept areas.
                 // Then in production TeX engines, we provide a map of areas to base path for
                 // that area. There is still an error case when an undefined area is referenced.
-                panic!("Texlang does not have support for file areas yet");
+                // Until then the area is kept as a literal part of the file name, so that
+                // the caller reports an ordinary "file not found" error instead of a panic.
+                path.push(std::ffi::OsString::from(format!("{}{}", area, self.path)))
             }
         };
-        path.push(std::ffi::OsString::from(&self.path));
         path.set_extension(std::ffi::OsString::from(
             self.extension.as_deref().unwrap_or(default_extension),
         ));
